@@ -6,6 +6,7 @@ package main
 import (
 	"fmt"
 	"math"
+	"math/rand"
 	"sort"
 
 	"github.com/aclements/go-moremath/stats"
@@ -92,25 +93,92 @@ func mwOracleZ(x1, x2 []float64, alt int) float64 {
 	return numer / math.Sqrt(s2)
 }
 
+// Argument layouts (property clause "leaves its arguments unmodified"): every slice argument is a
+// window of a larger backing array with guard cells (a sentinel NaN bit pattern) before and after it,
+// and the WHOLE backing array is compared bitwise after every call.  The layout rotates with the call:
+//
+//	0  tight capacity (cap == len), x1 and x2 in separate regions
+//	1  generous capacity (cap(x1) >= len(x1)+len(x2)+guard, likewise x2): an append onto the argument
+//	   writes into the caller's memory instead of allocating
+//	2  x2 lies directly behind x1 inside x1's capacity (the two arguments are neighbours in one array)
+const mwSentinel = 0x7ff8dead0000beef
+const mwGuard = 5
+
+type mwArgs struct {
+	backing []float64
+	snap    []uint64
+	x1, x2  []float64
+}
+
+func mwLayout(kind int, v1, v2 []float64, nil1, nil2 bool) *mwArgs {
+	n1, n2 := len(v1), len(v2)
+	var size, o1, c1, o2, c2 int
+	switch kind % 3 {
+	case 0:
+		o1, c1 = mwGuard, mwGuard+n1
+		o2 = c1 + mwGuard
+		c2 = o2 + n2
+		size = c2 + mwGuard
+	case 1:
+		o1 = mwGuard
+		c1 = o1 + n1 + n1 + n2 + mwGuard
+		o2 = c1 + mwGuard
+		c2 = o2 + n2 + n1 + n2 + mwGuard
+		size = c2 + mwGuard
+	default:
+		o1 = mwGuard
+		o2 = o1 + n1
+		size = o2 + n2 + n1 + n2 + 2*mwGuard
+		c1, c2 = size, size
+	}
+	a := &mwArgs{backing: make([]float64, size)}
+	for i := range a.backing {
+		a.backing[i] = math.Float64frombits(mwSentinel)
+	}
+	a.x1 = a.backing[o1 : o1+n1 : c1]
+	a.x2 = a.backing[o2 : o2+n2 : c2]
+	copy(a.x1, v1)
+	copy(a.x2, v2)
+	a.snap = make([]uint64, size)
+	for i, v := range a.backing {
+		a.snap[i] = math.Float64bits(v)
+	}
+	if nil1 {
+		a.x1 = nil
+	}
+	if nil2 {
+		a.x2 = nil
+	}
+	return a
+}
+
+// intact reports whether the whole backing array still has its original bit patterns.
+func (a *mwArgs) intact() bool {
+	for i, v := range a.backing {
+		if math.Float64bits(v) != a.snap[i] {
+			return false
+		}
+	}
+	return true
+}
+
 // mwEmit runs the calls of r against the real library and appends the run to l.
 func mwEmit(l *Line, r *mwRun) {
-	x1 := fromF64s(r.X1)
-	x2 := fromF64s(r.X2)
-	if r.X1 == nil {
-		x1 = nil
-	}
-	if r.X2 == nil {
-		x2 = nil
-	}
-	s1 := append([]float64{}, x1...)
-	s2 := append([]float64{}, x2...)
+	s1 := fromF64s(r.X1)
+	s2 := fromF64s(r.X2)
 	oldE, oldT := stats.MannWhitneyExactLimit, stats.MannWhitneyTiesExactLimit
 	stats.MannWhitneyExactLimit, stats.MannWhitneyTiesExactLimit = r.EL, r.TL
 	l.I(r.EL).I(r.TL).Fs(s1).Fs(s2).I(len(r.Alts))
-	for _, alt := range r.Alts {
+	pure := true
+	for k, alt := range r.Alts {
+		args := mwLayout(k+len(s1)+len(s2), s1, s2, r.X1 == nil, r.X2 == nil)
+		x1, x2 := args.x1, args.x2
 		var res *stats.MannWhitneyUTestResult
 		var err error
 		pan, _ := catch(func() { res, err = stats.MannWhitneyUTest(x1, x2, stats.LocationHypothesis(alt)) })
+		if !args.intact() || len(x1) != len(s1) || len(x2) != len(s2) {
+			pure = false
+		}
 		status := 0
 		switch {
 		case pan:
@@ -131,20 +199,24 @@ func mwEmit(l *Line, r *mwRun) {
 		zf := mwOracleZ(s1, s2, alt)
 		l.F(zf).F(stats.StdNormal.CDF(zf))
 	}
-	pure := stats.MannWhitneyExactLimit == r.EL && stats.MannWhitneyTiesExactLimit == r.TL
-	stats.MannWhitneyExactLimit, stats.MannWhitneyTiesExactLimit = oldE, oldT
-	if len(x1) != len(s1) || len(x2) != len(s2) {
+	if stats.MannWhitneyExactLimit != r.EL || stats.MannWhitneyTiesExactLimit != r.TL {
 		pure = false
 	}
-	for i := range s1 {
-		if math.Float64bits(s1[i]) != math.Float64bits(x1[i]) {
-			pure = false
-		}
-	}
-	for i := range s2 {
-		if math.Float64bits(s2[i]) != math.Float64bits(x2[i]) {
-			pure = false
-		}
-	}
+	stats.MannWhitneyExactLimit, stats.MannWhitneyTiesExactLimit = oldE, oldT
 	l.B(pure)
+}
+
+// mwOnePair returns distinct integer values split into samples of sizes n1, n2 (n1+n2 >= 3) in which
+// exactly one value occurs twice: the smallest possible tie, at a random position of the order and
+// at random places of the two samples.
+func mwOnePair(rng *rand.Rand, n1, n2 int) ([]float64, []float64) {
+	n := n1 + n2
+	vals := make([]float64, n)
+	for i := range vals {
+		vals[i] = float64(i)
+	}
+	k := rng.Intn(n - 1)
+	vals[k+1] = vals[k]
+	rng.Shuffle(n, func(i, j int) { vals[i], vals[j] = vals[j], vals[i] })
+	return append([]float64{}, vals[:n1]...), append([]float64{}, vals[n1:]...)
 }
